@@ -88,8 +88,23 @@ ASSUMPTIONS = [
 SENSITIVITY = []
 
 MARKER = 'VerifMarker'
-IO_TIMEOUT = 20.0          # s; stop condition for a read that never ends
+IO_TIMEOUT = 12.0          # s; stop condition for a read that never ends
 DELIVERY_TIMEOUT = 20.0    # s; stop condition for waiting on the callback
+
+# A listener that hangs or no longer delivers makes every request wait for
+# the full time limit.  After three such waits in a process the limits are
+# lowered, so that a run against a badly broken tree still ends (the
+# violations are recorded already; on a healthy tree this is never used).
+_WAITED = {'io': 0, 'delivery': 0}
+
+
+def io_timeout():
+    return IO_TIMEOUT if _WAITED['io'] < 3 else 1.5
+
+
+def delivery_timeout():
+    return DELIVERY_TIMEOUT if _WAITED['delivery'] < 3 else 1.0
+
 
 # ---------------------------------------------------------------------------
 # stderr capture (socketserver prints handler tracebacks there) and logging
@@ -254,12 +269,13 @@ class Fixture:
         with self.lock:
             return self.log.count(marker)
 
-    def wait_delivered(self, marker, timeout=DELIVERY_TIMEOUT):
-        end = time.time() + timeout
+    def wait_delivered(self, marker, timeout=None):
+        end = time.time() + (timeout or delivery_timeout())
         while True:
             if self.delivered(marker):
                 return True
             if time.time() > end:
+                _WAITED['delivery'] += 1
                 return False
             time.sleep(0.001)
 
@@ -278,12 +294,23 @@ class Fixture:
             return None
         if self.gate is not None:
             self.gate.set()
-        try:
-            lis.stop()
-        except Exception as exc:  # pylint: disable=broad-except
-            # stop() problems are the subject of C16, not of this property
-            return exc
-        return None
+        result = []
+
+        def run():
+            try:
+                lis.stop()
+            except Exception as exc:  # pylint: disable=broad-except
+                # stop() problems are the subject of C16, not of this
+                # property
+                result.append(exc)
+        # stop() waits for ever if the callback thread died with a non-empty
+        # queue; do not let that block the harness
+        t = threading.Thread(target=run, daemon=True)
+        t.start()
+        t.join(15)
+        if t.is_alive():
+            return RuntimeError('stop() did not return within 15 s')
+        return result[0] if result else None
 
 
 _FX = None
@@ -329,8 +356,15 @@ def release_fixture():
 
 
 def next_marker():
+    """
+    Fresh marker value.  Markers are 14-digit numbers whose digit sum is a
+    multiple of 10, so that a mutated request (byte flip in a digit, value
+    text replaced by a small number) can never carry the marker of another
+    request.
+    """
     _MARK[0] += 1
-    return _MARK[0]
+    n = 10 ** 12 + _MARK[0]
+    return n * 10 + (-sum(int(c) for c in str(n))) % 10
 
 
 # ---------------------------------------------------------------------------
@@ -351,6 +385,7 @@ def _recv_all(sock):
                 break
     except socket.timeout:
         end = 'timeout'
+        _WAITED['io'] += 1
     except (ConnectionResetError, ConnectionAbortedError, BrokenPipeError):
         end = 'reset'
     return data, end
@@ -370,7 +405,8 @@ def exchange(port, raw):
     One connection: send raw, half-close, read to the end.
     Returns (bytes, (how the stream ended, client port)).
     """
-    sock = socket.create_connection(('127.0.0.1', port), timeout=IO_TIMEOUT)
+    sock = socket.create_connection(('127.0.0.1', port),
+                                    timeout=io_timeout())
     try:
         sock.setsockopt(socket.IPPROTO_TCP, socket.TCP_NODELAY, 1)
         lport = sock.getsockname()[1]
@@ -974,7 +1010,7 @@ def build_body(rec, marker):
             info['expect'].append('any')
         elif name == 'unicode-tag':
             tag, new = payload
-            t = body.decode('utf-8')
+            t = body.decode('utf-8', 'surrogateescape')
             t = t.replace('<' + tag + ' ', '<' + new + ' ', 1).replace(
                 '<' + tag + '>', '<' + new + '>', 1)
             # last end tag of that name (elements nest, first start tag is
@@ -982,11 +1018,11 @@ def build_body(rec, marker):
             i = t.rfind('</' + tag + '>')
             if i >= 0 and ('<' + new) in t:
                 t = t[:i] + '</' + new + '>' + t[i + len(tag) + 3:]
-            body = t.encode('utf-8')
+            body = t.encode('utf-8', 'surrogateescape')
             info['expect'].append('any')
         elif name == 'unicode-attr':
             attr, new, replace_value = payload
-            t = body.decode('utf-8')
+            t = body.decode('utf-8', 'surrogateescape')
             i = t.find(' ' + attr)
             if i >= 0:
                 if replace_value:
@@ -994,7 +1030,7 @@ def build_body(rec, marker):
                     t = t[:i + 1 + len(attr)] + new + t[j:]
                 else:
                     t = t[:i] + ' ' + new + '="x"' + t[i:]
-            body = t.encode('utf-8')
+            body = t.encode('utf-8', 'surrogateescape')
             info['expect'].append('any')
         elif name == 'decl':
             body = _apply_decl(body, payload)
@@ -1177,6 +1213,7 @@ def check_exchange(ctx, fx, raw, info, data, end, classes, where=''):
     if end == 'timeout':
         ctx.fail('no-response:read-timeout-after-half-close',
                  'nothing more within %s s; got %r' % (IO_TIMEOUT, data[:200]))
+        classes.append('outcome:timeout')
         return None
     if not data:
         block = _CAP.block_for(lport) if _CAP is not None else None
@@ -1385,8 +1422,10 @@ def responses_oracle(ctx, rec):
 class Sequences:
     """
     History of requests on one listener: complete requests (any defects),
-    valid indications, connections stalled in the middle of a request that
-    are resumed or aborted later.
+    valid indications, bursts of simultaneous valid indications, connections
+    stalled in the middle of a request that are resumed or aborted later.
+    The number of steps and the step alternatives depend only on the steps
+    drawn so far, never on how the listener behaved.
     """
 
     MAX_STALLED = 4
@@ -1394,7 +1433,7 @@ class Sequences:
     def __init__(self, ctx):
         self.ctx = ctx
         self.fx = None
-        self.stalled = []    # dicts: sock, rest, raw, info, marker
+        self.stalled = []    # dicts: sock, rest, raw, info, marker, fx
         self.valid = []      # markers that were accepted
         self.n_defect = 0
         self.n_valid = 0
@@ -1426,16 +1465,17 @@ class Sequences:
                                                    'halfclose'])))
         return st.one_of(opts)
 
+    def _accepted(self, resp, marker):
+        if resp is not None and resp.status == 200 and \
+                export_response(resp.body)[0] == 'success':
+            self.valid.append(marker)
+
     def _valid(self, inst):
         marker = next_marker()
         raw, info = valid_request(marker, inst)
         data, end = exchange(self.fx.port, raw)
-        cl = []
-        resp = check_exchange(self.ctx, self.fx, raw, info, data, end, cl,
-                              where='seq:')
-        if resp is not None and resp.status == 200 and \
-                export_response(resp.body)[0] == 'success':
-            self.valid.append(marker)
+        resp = check_exchange(self.ctx, self.fx, raw, info, data, end, [])
+        self._accepted(resp, marker)
         self.n_valid += 1
 
     def _burst(self, k):
@@ -1446,13 +1486,14 @@ class Sequences:
             raw, info = valid_request(marker)
             jobs.append([marker, raw, info, None])
         barrier = threading.Barrier(k)
+        port = self.fx.port
 
         def run(job):
             try:
                 barrier.wait(10)
             except threading.BrokenBarrierError:
                 pass
-            job[3] = exchange(self.fx.port, job[1])
+            job[3] = exchange(port, job[1])
         threads = [threading.Thread(target=run, args=(j,), daemon=True)
                    for j in jobs]
         for t in threads:
@@ -1466,17 +1507,14 @@ class Sequences:
                 continue
             resp = check_exchange(self.ctx, self.fx, raw, info, res[0],
                                   res[1], [])
-            if resp is not None and resp.status == 200 and \
-                    export_response(resp.body)[0] == 'success':
-                self.valid.append(marker)
+            self._accepted(resp, marker)
         self.n_valid += 1
 
     def apply(self, step):
         kind = step[0]
         self.classes.append('step:' + kind)
         if kind == 'req':
-            cl = []
-            info, _ = run_request(self.ctx, self.fx, step[1], cl)
+            info, _ = run_request(self.ctx, self.fx, step[1], [])
             if info['defects']:
                 self.n_defect += 1
         elif kind == 'valid':
@@ -1488,11 +1526,11 @@ class Sequences:
             raw, info = build_request(step[1], marker)
             cut = len(raw) * step[2] // 1000
             sock = socket.create_connection(('127.0.0.1', self.fx.port),
-                                            timeout=IO_TIMEOUT)
+                                            timeout=io_timeout())
             sock.setsockopt(socket.IPPROTO_TCP, socket.TCP_NODELAY, 1)
             _send(sock, raw[:cut])
             self.stalled.append(dict(sock=sock, rest=raw[cut:], raw=raw,
-                                     info=info, marker=marker,
+                                     info=info, marker=marker, fx=self.fx,
                                      lport=sock.getsockname()[1]))
             if info['defects']:
                 self.n_defect += 1
@@ -1506,13 +1544,17 @@ class Sequences:
         if not self.fx.threads_alive():
             self.ctx.fail('listener-thread-died', 'after step %r' %
                           (step,))
+            # go on with a new listener; connections stalled on the old one
+            # are only closed later
             self.fx.stop()
-            return False
+            self.fx = shared_fixture()
         return True
 
     def _resume(self, c):
         sock = c['sock']
         try:
+            if c['fx'] is not self.fx:
+                return
             _send(sock, c['rest'])
             try:
                 sock.shutdown(socket.SHUT_WR)
@@ -1521,13 +1563,10 @@ class Sequences:
             data, end = _recv_all(sock)
         finally:
             sock.close()
-        cl = []
         resp = check_exchange(self.ctx, self.fx, c['raw'], c['info'], data,
-                              (end, c['lport']), cl)
-        if resp is not None and resp.status == 200 and \
-                c['info']['expect'] == 'success' and \
-                export_response(resp.body)[0] == 'success':
-            self.valid.append(c['marker'])
+                              (end, c['lport']), [])
+        if c['info']['expect'] == 'success':
+            self._accepted(resp, c['marker'])
 
     def _abort(self, c, how):
         sock = c['sock']
@@ -1536,10 +1575,8 @@ class Sequences:
                 import struct
                 sock.setsockopt(socket.SOL_SOCKET, socket.SO_LINGER,
                                 struct.pack('ii', 1, 0))
-            elif how == 'halfclose':
-                # the request ends in the middle: whatever comes back must
-                # still be one well-formed response (or nothing if not even
-                # the request line was complete)
+            elif how == 'halfclose' and c['fx'] is self.fx:
+                # the request ends in the middle; only survival is checked
                 try:
                     sock.shutdown(socket.SHUT_WR)
                 except OSError:
